@@ -493,6 +493,13 @@ def choose_selection(rng, sc, pos, preds):
     cand = [inv[x] for x in sorted(base) if x in inv]
     if cand and rng.random() < 0.5:
         xs = rng.sample(cand, rng.randint(0, min(2, len(cand))))
+        # directed: excluded nodes that DEPEND ON EACH OTHER (p -> q, or p ~> q), listed in either order: what hangs
+        # below q is excluded exactly like what hangs below p
+        rel = [(a, b) for a in cand for b in cand if a != b and P[b] in nx.descendants(g, P[a])]
+        if rel and rng.random() < 0.4:
+            direct = [(a, b) for a, b in rel if g.has_edge(P[a], P[b])]
+            a, b = rng.choice(direct if direct and rng.random() < 0.7 else rel)
+            xs = [a, b] if rng.random() < 0.5 else [b, a]
         X = with_dups([G.alias_for(rng, sc, i) for i in xs], xs)
     Xr = resolve(X)
     base2 = G.py_closure(preds, Rr, Xr, None) if base else set()
